@@ -30,6 +30,7 @@ pub struct Scn {
     pub user_key: HashMap<String, Vec<u8>>,
     pub defs_cache: Option<Value>,
     pub live_rooms: HashMap<(String, Uid), std::sync::Arc<vh::database::room::Room>>,
+    pub conns: HashMap<String, ServeConn>,
 }
 
 impl World {
@@ -486,6 +487,233 @@ fn matrix_of(room: &vh::database::room::Room, scn: &Scn, dates: &[i64]) -> Value
         }
     }
     json!({"yes": yes})
+}
+
+/// the serving side of one connection (the real InboundQueryService loop), driven by the harness as the remote end
+pub struct ServeConn {
+    q_send: tokio::sync::mpsc::Sender<vh::synchronisation::QueryProtocol>,
+    a_recv: tokio::sync::mpsc::Receiver<vh::synchronisation::Answer>,
+    inbound: vh::synchronisation::peer_outbound_service::InboundQueryService,
+    remote_key: std::sync::Arc<tokio::sync::Mutex<Vec<u8>>>,
+    events: tokio::sync::mpsc::Sender<vh::synchronisation::RemoteEvent>,
+    _events_rx: tokio::sync::mpsc::Receiver<vh::synchronisation::RemoteEvent>,
+    next_id: u64,
+}
+
+/// one batch of requests of an (authenticated or not) remote peer on a connection of instance `server`;
+/// before the requests, the room definition changes that happened on the server since the last call are given
+/// to the connection as the local events the library would broadcast
+pub async fn serve(world: &mut World, scn: &mut Scn, step: &Value) -> Result<Value, String> {
+    use vh::database::daily_log::{DailyLog, RoomDefinitionLog};
+    use vh::database::edge::{Edge, EdgeDeletionEntry};
+    use vh::database::node::{Node, NodeDeletionEntry, NodeIdentifier};
+    use vh::database::room_node::RoomNode;
+    use vh::synchronisation::peer_inbound_service::LocalPeerService;
+    use vh::synchronisation::peer_outbound_service::{InboundQueryService, RemotePeerHandle};
+    use vh::synchronisation::{LocalEvent, Query, QueryProtocol};
+    let sname = s(step, "server");
+    let cid = s(step, "conn");
+    let as_user = s(step, "as");
+    // room-modified events of the server since the last call -> local events of the connection
+    {
+        let p = &world.peers[&sname];
+        p.write_barrier().await;
+        let _ = p.services.events.subcribe().await;
+    }
+    let mut changed: Vec<std::sync::Arc<vh::database::room::Room>> = Vec::new();
+    {
+        let rx = world.rx.get_mut(&sname).unwrap();
+        loop {
+            match rx.try_recv() {
+                Ok(discret::Event::RoomModified(r)) => changed.push(r),
+                Ok(_) => {}
+                Err(tokio::sync::broadcast::error::TryRecvError::Lagged(_)) => {}
+                Err(_) => break,
+            }
+        }
+    }
+    let server = &world.peers[&sname];
+    if !scn.conns.contains_key(&cid) {
+        let (q_send, q_recv) = tokio::sync::mpsc::channel::<QueryProtocol>(10);
+        let (a_send, a_recv) = tokio::sync::mpsc::channel::<vh::synchronisation::Answer>(1000);
+        let handle = RemotePeerHandle { allowed_room: HashSet::new(), db: server.db.clone(), verifying_key: server.vkey.clone(), reply: a_send };
+        let key = if as_user.is_empty() { vec![] } else { scn.user_key.get(&as_user).cloned().unwrap_or_default() };
+        let remote_key = std::sync::Arc::new(tokio::sync::Mutex::new(key));
+        let ready = std::sync::Arc::new(std::sync::atomic::AtomicBool::new(true));
+        let (dummy_send, mut dummy_recv) = tokio::sync::mpsc::channel::<vh::peer_connection_service::PeerConnectionMessage>(32);
+        tokio::spawn(async move { while dummy_recv.recv().await.is_some() {} });
+        let inbound = InboundQueryService::start(
+            vh::security::HardwareFingerprint { id: Default::default(), name: "dv".to_string() },
+            [7u8; 32], Default::default(), handle, q_recv,
+            vh::peer_connection_service::PeerConnectionService { sender: dummy_send }, remote_key.clone(), ready);
+        let (events, _events_rx) = tokio::sync::mpsc::channel::<vh::synchronisation::RemoteEvent>(1000);
+        scn.conns.insert(cid.clone(), ServeConn { q_send, a_recv, inbound, remote_key, events, _events_rx, next_id: 1 });
+    }
+    let conn = scn.conns.get_mut(&cid).unwrap();
+    // authentication state of the connection can change (a key is proven later)
+    {
+        let mut k = conn.remote_key.lock().await;
+        *k = if as_user.is_empty() { vec![] } else { scn.user_key.get(&as_user).cloned().unwrap_or_default() };
+    }
+    let scenario_rooms: HashSet<Uid> = scn.names.rooms.values().cloned().collect();
+    for r in changed {
+        if scenario_rooms.contains(&r.id) {
+            let _ = LocalPeerService::verif_process_local_event(LocalEvent::RoomDefinitionChanged(r), &conn.remote_key, &conn.events,
+                &HashSet::new(), &conn.inbound).await;
+        }
+    }
+    for _ in 0..4 {
+        tokio::task::yield_now().await;
+    }
+    let row_room: HashMap<Uid, Option<Uid>> = {
+        let st = read_store(server, world.app_shorts(), scn.names.rooms.values().cloned().collect(), scn.names.rows.values().cloned().collect()).await;
+        st.nodes.iter().map(|n| (n.id, n.room)).collect()
+    };
+    let mut answers = Vec::new();
+    for rq in arr(step, "reqs") {
+        let q = s(rq, "q");
+        let room = rq.get("room").and_then(|r| r.as_str()).and_then(|r| scn.names.rooms.get(r)).cloned().unwrap_or_default();
+        let rows: Vec<Uid> = rq.get("rows").and_then(|r| r.as_array()).map(|a| a.iter().filter_map(|x| scn.names.rows.get(x.as_str().unwrap_or("")).cloned()).collect()).unwrap_or_default();
+        let ent_short = world.short.get("v.A").cloned().unwrap_or_default();
+        let day0 = ts(0, 0);
+        let query = match q.as_str() {
+            "RoomList" => Query::RoomList,
+            "RoomDefinition" => Query::RoomDefinition(room),
+            "RoomNode" => Query::RoomNode(room),
+            "RoomLog" => Query::RoomLog(room),
+            "RoomLogAt" => Query::RoomLogAt(room, day0),
+            "EdgeDeletionLog" => Query::EdgeDeletionLog(room, ent_short.clone(), day0),
+            "NodeDeletionLog" => Query::NodeDeletionLog(room, ent_short.clone(), day0),
+            "RoomDailyNodes" => Query::RoomDailyNodes(room, ent_short.clone(), day0),
+            "Nodes" => Query::Nodes(room, rows.clone()),
+            "Edges" => Query::Edges(room, rows.iter().map(|r| (*r, 0)).collect()),
+            "PeersForRoom" => Query::PeersForRoom(room),
+            "HardwareFingerprint" => Query::HardwareFingerprint(),
+            other => return Err(format!("unknown query {other}")),
+        };
+        let id = conn.next_id;
+        conn.next_id += 1;
+        conn.q_send.send(QueryProtocol { id, query }).await.map_err(|e| e.to_string())?;
+        // a marker request that is always answered tells that the previous one has been handled entirely
+        let marker = conn.next_id;
+        conn.next_id += 1;
+        conn.q_send.send(QueryProtocol { id: marker, query: Query::RoomNode([0xEE; 16]) }).await.map_err(|e| e.to_string())?;
+        let mut served_rooms: Vec<String> = Vec::new();
+        let mut served_rows: Vec<String> = Vec::new();
+        let mut success = Vec::new();
+        loop {
+            let a = match tokio::time::timeout(std::time::Duration::from_secs(20), conn.a_recv.recv()).await {
+                Ok(Some(a)) => a,
+                _ => return Err("no answer to the marker request".to_string()),
+            };
+            if a.id == marker {
+                break;
+            }
+            if a.id != id {
+                continue;
+            }
+            success.push(a.success);
+            if !a.success {
+                continue;
+            }
+            let b = &a.serialized;
+            let req_room = scn.names.room(&room);
+            let mut room_of_row = |u: &Uid, served_rows: &mut Vec<String>, served_rooms: &mut Vec<String>| {
+                served_rows.push(scn.names.row(u));
+                if let Some(Some(r)) = row_room.get(u) {
+                    served_rooms.push(scn.names.room(r));
+                }
+            };
+            match q.as_str() {
+                "RoomList" => {
+                    if let Ok(v) = vh::bincode::deserialize::<std::collections::VecDeque<Uid>>(b) {
+                        for r in v {
+                            if scenario_rooms.contains(&r) {
+                                served_rooms.push(scn.names.room(&r));
+                            }
+                        }
+                    }
+                }
+                "RoomDefinition" => {
+                    if let Ok(Some(_)) = vh::bincode::deserialize::<Option<RoomDefinitionLog>>(b) {
+                        served_rooms.push(req_room.clone());
+                    }
+                }
+                "RoomNode" => {
+                    if let Ok(Some(rn)) = vh::bincode::deserialize::<Option<RoomNode>>(b) {
+                        served_rooms.push(scn.names.room(&rn.node.id));
+                    }
+                }
+                "RoomLog" | "RoomLogAt" => {
+                    if let Ok(v) = vh::bincode::deserialize::<Vec<DailyLog>>(b) {
+                        for l in v {
+                            served_rooms.push(scn.names.room(&l.room_id));
+                        }
+                    }
+                }
+                "EdgeDeletionLog" => {
+                    if let Ok(v) = vh::bincode::deserialize::<Vec<EdgeDeletionEntry>>(b) {
+                        for l in v {
+                            served_rooms.push(scn.names.room(&l.room_id));
+                        }
+                    }
+                }
+                "NodeDeletionLog" => {
+                    if let Ok(v) = vh::bincode::deserialize::<Vec<NodeDeletionEntry>>(b) {
+                        for l in v {
+                            served_rooms.push(scn.names.room(&l.room_id));
+                            served_rows.push(scn.names.row(&l.id));
+                        }
+                    }
+                }
+                "RoomDailyNodes" => {
+                    if let Ok(v) = vh::bincode::deserialize::<HashSet<NodeIdentifier>>(b) {
+                        for l in v {
+                            room_of_row(&l.id, &mut served_rows, &mut served_rooms);
+                        }
+                    }
+                }
+                "Nodes" => {
+                    if let Ok(v) = vh::bincode::deserialize::<Vec<Node>>(b) {
+                        for l in v {
+                            served_rows.push(scn.names.row(&l.id));
+                            if let Some(r) = l.room_id {
+                                served_rooms.push(scn.names.room(&r));
+                            }
+                        }
+                    }
+                }
+                "Edges" => {
+                    if let Ok(v) = vh::bincode::deserialize::<Vec<Edge>>(b) {
+                        for l in v {
+                            room_of_row(&l.src, &mut served_rows, &mut served_rooms);
+                        }
+                    }
+                }
+                "PeersForRoom" => {
+                    if let Ok(v) = vh::bincode::deserialize::<Vec<Node>>(b) {
+                        if !v.is_empty() {
+                            served_rooms.push(req_room.clone());
+                        }
+                    }
+                }
+                "HardwareFingerprint" => {
+                    served_rooms.push("#fingerprint".to_string());
+                }
+                _ => {}
+            }
+        }
+        served_rooms.sort();
+        served_rooms.dedup();
+        served_rows.sort();
+        served_rows.dedup();
+        let mut a = rq.clone();
+        a["rooms"] = json!(served_rooms);
+        a["served_rows"] = json!(served_rows);
+        a["success"] = json!(success);
+        answers.push(a);
+    }
+    Ok(json!(answers))
 }
 
 /// A candidate room definition assembled from the honest export of `from` plus one adversarial change signed
@@ -1257,6 +1485,12 @@ pub async fn run_step(world: &mut World, scn: &mut Scn, step: &Value, out: &mut 
                 Err(e) => res = Err(e),
             }
         }
+        "serve" => {
+            match serve(world, scn, step).await {
+                Ok(v) => ev["answers"] = v,
+                Err(e) => res = Err(e),
+            }
+        }
         "roompaths" => {
             match room_paths(world, scn, step).await {
                 Ok(v) => ev["paths"] = v,
@@ -1402,7 +1636,7 @@ pub async fn run_step(world: &mut World, scn: &mut Scn, step: &Value, out: &mut 
 pub async fn run_scenario(world: &mut World, sc: &Value, out: &mut TraceWriter) {
     let peers: Vec<String> = arr(sc, "peers").iter().map(|x| x.as_str().unwrap().to_string()).collect();
     let mut scn = Scn { names: Names::default(), hash_ids: HashMap::new(), terms: HashMap::new(), peers: peers.clone(), events: sc.get("events").and_then(|e| e.as_bool()).unwrap_or(false),
-        defs: sc.get("defs").and_then(|e| e.as_bool()).unwrap_or(false), auth_ids: HashMap::new(), user_key: HashMap::new(), defs_cache: None, live_rooms: HashMap::new() };
+        defs: sc.get("defs").and_then(|e| e.as_bool()).unwrap_or(false), auth_ids: HashMap::new(), user_key: HashMap::new(), defs_cache: None, live_rooms: HashMap::new(), conns: HashMap::new() };
     for p in &peers {
         let user = sc["users"][p].as_str().unwrap_or("u1").to_string();
         world.ensure_peer(p, &user).await;
